@@ -170,8 +170,32 @@ def ptr_jobs(tier):
     return J
 
 
+def hosts_entry_jobs(tier):
+    import itertools
+    J = []
+    names = ["v4a", "v4b", "v6a", "v6b", "bad"]
+    sel = (0, 2, 4) if tier == "quick" else (0, 1, 2, 3, 4)
+    combos = list(itertools.product(sel, repeat=2))
+    if tier != "quick":
+        combos += [(0, 2, 1), (2, 0, 3), (4, 2, 0), (2, 4, 2), (0, 0, 2)]
+    for c in combos:
+        both = any(k in (0, 1) for k in c) and any(k in (2, 3) for k in c)
+        none = all(k == 4 for k in c)
+        J.append(dict(name="c13_hosts_entry_%s" % "_".join(names[k] for k in c), harness="hosts_entry.c",
+                      defines=["-DNIP=%d" % len(c), "-DPICKS=" + ",".join(str(k) for k in c)],
+                      real=LIB + ["src/lib/ares_addrinfo_localhost.c", "src/lib/ares_getaddrinfo.c", "src/lib/ares_freeaddrinfo.c",
+                                  "src/lib/inet_net_pton.c", "src/lib/str/ares_str.c", "src/lib/str/ares_buf.c", "src/lib/util/ares_math.c",
+                                  "src/lib/dsa/ares_llist.c"],
+                      unwind=20, leak=True, mem_gb=6, timeout=240 if tier == "quick" else 900,
+                      witnesses=["end"] + ([] if both else ["not found"]) + ([] if none else ["found"]) + (["both families"] if both else []),
+                      bound="ONE ares_hosts_entry_to_addrinfo on the entry [%s] (v4a=1.2.3.4 v4b=10.0.0.9 v6a=::1 v6b=fe80::5 bad='zz'); "
+                            "requested family AF_UNSPEC/AF_INET/AF_INET6, port and want_cnames symbolic" % " ".join(names[k] for k in c)))
+    return J
+
+
 def jobs(tier, seed):
     J = []
+    J += hosts_entry_jobs(tier)
     J += sort_jobs(tier)
     J += sortlist_jobs(tier)
     J += hostent_jobs(tier)
